@@ -670,6 +670,19 @@ def _judge(res, case, sc, enc, info, tr):
         for k, m in oracle.wire_problems(wire, info['negotiated'] or
                                          mode == 'unsolicited'):
             res.xobs.append('C03/' + k)
+    for e in tr.events:
+        # what was delivered stays what it was: an application that queues
+        # its events reads them after later messages have been inflated
+        if e.name in ('text', 'binary') and netsim.snapshot(e.obj) != e.snap:
+            res.bad('C06/%s/payload_changed_after_delivery' % tag,
+                    'event %d (%s, %d bytes at delivery) reads differently '
+                    'at the end of the run' % (e.index, e.name,
+                                               len(e.snap[2])))
+            break
+        if e.name == 'binary' and e.snap[1] != 'bytes':
+            res.bad('C06/%s/binary_not_bytes' % tag,
+                    'Binary.data is %s' % e.snap[1])
+            break
     for k, m in oracle.trace_sanity(tr):
         res.xobs.append('C07/' + k)
         if k in ('hang', 'escaped'):
